@@ -54,6 +54,10 @@ CLAIMS["C05"] = ("other", "provenance of the dealt-in flag (loop range, same-pla
   "Decides the data flow that makes 'dealt in' equal 'eligible' at open, the has-chips refresh after every chip flow, the waiting-flag assignment on seating and its re-evaluation only for non-eligible seats, and the propagation of the refusal. One genuine defect (add-on without has-chips refresh) was repaired (fix: commit). Bounded waiting and persistence across hands are history properties and are not decided.",
   "DESIGN.md §4 C05, §5 F8", TRUST)
 
+CLAIMS["C20"] = ("other", "path enumeration with nil/bool facts over the observer runner (filter-before-emit), provenance/alias check of the adapter's JSON round-trip copy, call-graph closure of the observer runner",
+  "Decides on every path of the observer runner that the user callback is preceded by the AsObserver filter whenever a hand state may exist and system mode is off, that each actor receives and the adapter keeps a fresh JSON copy of the incoming table, and that the observer has no write path to the engine. One genuine leak (filter keyed on table status) was repaired (fix: commit). What AsObserver hides is trusted.",
+  "DESIGN.md §4 C20, §5 F7", TRUST)
+
 REASONS = {}
 
 checks = []
